@@ -41,6 +41,11 @@ def oracle(rep, rnd, tier, impl):
         ("do do error 'a' catch undefined_zz 1 end catch 'ERROR' 'outer' end", "(s 111 117 116 101 114)"),
         ("do do do error 'a' catch 'a' error 'b' end catch 'b' error 'c' end catch 'c' 'third' end", "(s 116 104 105 114 100)"),
         ("do do error 'a' catch 'a' error 'b' end; 5 catch 'b' 'two statements' end", "(s 116 119 111 32 115 116 97 116 101 109 101 110 116 115)"),
+        # only the clauses up to the matching one are looked at: a later clause's value is neither evaluated nor can it fail
+        ("do error 1 catch 1 'handled' catch undefined_zz 'other' end", "(s 104 97 110 100 108 101 100)"),
+        ("do error 1 catch all 'any' catch undefined_zz 'other' end", "(s 97 110 121)"),
+        ("def n = 0; def v() do n += 1; 'e' end; def r = do error 'x' catch 'x' 'h' catch v() 'o' end; [r, n]", "(list (s 104) (i 0))"),
+        ("def n = 0; def v() do n += 1; 'e' end; def r = []; for i in [1, 2] do append(r, do error 'e' catch v() i catch 1 / 0 'z' finally n += 10 end) end; [r, n]", "(list (list (i 1) (i 2)) (i 22))"),
         # error values that cannot be turned into text (an output stream, an object whose _str_ fails), functions, patterns, dates:
         # the handler is chosen by the value, nothing about the value is computed on the way
         ("def o = <*_str_ = fn(self) error 'S'*>; do do error o catch 'ERROR' 'inner' catch 'S' 'innerS' end catch o 'outer' end", "(s 111 117 116 101 114)"),
